@@ -10,7 +10,6 @@ import (
 	"context"
 	"fmt"
 	"io"
-	"iter"
 	"net/http"
 	"strings"
 	"testing"
@@ -18,30 +17,6 @@ import (
 
 	"github.com/modelcontextprotocol/go-sdk/internal/verifx"
 )
-
-type c08Store struct {
-	inner EventStore
-	// ground truth: payloads in append order per "session|stream"
-	appended map[string][]string
-}
-
-func (s *c08Store) key(sess, stream string) string { return sess + "|" + stream }
-func (s *c08Store) Open(ctx context.Context, sess, stream string) error {
-	return s.inner.Open(ctx, sess, stream)
-}
-func (s *c08Store) Append(ctx context.Context, sess, stream string, data []byte) error {
-	err := s.inner.Append(ctx, sess, stream, data)
-	if err == nil {
-		s.appended[s.key(sess, stream)] = append(s.appended[s.key(sess, stream)], string(data))
-	}
-	return err
-}
-func (s *c08Store) After(ctx context.Context, sess, stream string, idx int) iter.Seq2[[]byte, error] {
-	return s.inner.After(ctx, sess, stream, idx)
-}
-func (s *c08Store) SessionClosed(ctx context.Context, sess string) error {
-	return s.inner.SessionClosed(ctx, sess)
-}
 
 type c08Event struct{ id, name, data string }
 
